@@ -4,7 +4,7 @@ From Coq Require Import List NArith ZArith Bool.
 Import ListNotations.
 From RV Require Import Base.Str Base.PathLex Path.Clean Path.CleanSpec Path.Relative Path.Helpers Path.HelpersFacts Core.Iter File.MemFile Path.Expand Path.Abs Xdg.Dirs Chmod.Sym.
 From stdpp Require gmap.
-From RV Require Import Memfs.State Memfs.Ops Memfs.Step.
+From RV Require Import Memfs.State Memfs.Ops Memfs.Step Memfs.Wf Memfs.WfB.
 
 Definition api_components := components.
 Definition api_push := push.
@@ -131,3 +131,11 @@ Definition api_mfs_data (m : mfs) := fin_maps.map_to_list (m_data m).
 Definition api_files_list (e : entry) : option (list (list N)) :=
   match e_files e with Some fs => Some (base.elements fs) | None => None end.
 Definition api_render_rpath := render_rpath.
+Definition api_wf_b := wf_b.
+
+(* rebuild a state from a snapshot (lists of rendered paths are parsed by the driver into names) *)
+Definition api_mfs_of_lists (cwd root : list (list N)) (ents : list (list (list N) * entry)) (data : list (list (list N) * list N)) : mfs :=
+  mkMfs cwd root (fin_maps.list_to_map ents) (fin_maps.list_to_map data).
+Definition api_mk_entry := mkEntry.
+Definition api_set_of_list (l : list (list N)) : gmap.gset (list N) := base.list_to_set l.
+Definition api_rpath_of_string (s : list N) : list (list N) := List.rev (Ops.names_of s).
